@@ -139,7 +139,7 @@ def plan(draw, spec, bundles, inline_state_cbs, extend=False):
         trans.append(d)
         k += 1
     sstyles = ["attr", "attr", "dict"] + ([] if inline_state_cbs else ["enum", "enum"])
-    style = {"states": draw(st.sampled_from(sstyles)), "trans": trans, "inherit": draw(st.integers(0, 3)) == 0, "assoc": draw(st.sampled_from(["left", "right"])), "ior": draw(st.booleans())}
+    style = {"states": draw(st.sampled_from(sstyles)), "trans": trans, "inherit": draw(st.integers(0, 3)) == 0, "assoc": draw(st.sampled_from(["left", "right"])), "ior": draw(st.booleans()), "events_first": draw(st.booleans())}
     if extend and style["states"] != "enum" and not style["inherit"]:
         zs = extend_candidates(spec, trans)
         if zs and draw(st.integers(0, 3)) > 0:
